@@ -143,6 +143,7 @@ def create_spend_transaction(
 ) -> Transaction:
     collected_value = 0
     inputs = []
+    newly_spent_outputs = []
 
     unspent_transaction_outs = coinstate.at_head.unspent_transaction_outs
 
@@ -156,7 +157,7 @@ def create_spend_transaction(
                 # presumably broadcast) but which haven't made it into the chain yet.
                 continue
 
-            wallet.spent_transaction_outputs.add(output_reference)
+            newly_spent_outputs.append(output_reference)
 
             inputs.append(Input(output_reference, None))
 
@@ -171,7 +172,9 @@ def create_spend_transaction(
                         change_address,
                     ))
 
-                return sign_transaction(wallet, unspent_transaction_outs, Transaction(inputs, outputs))
+                transaction = sign_transaction(wallet, unspent_transaction_outs, Transaction(inputs, outputs))
+                wallet.spent_transaction_outputs.update(newly_spent_outputs)
+                return transaction
 
     raise Exception("Insufficient balance")
 
